@@ -8,12 +8,14 @@ mkdir -p $OUT
 INST="-std=gnu11 -O1 -g -fno-inline -fno-omit-frame-pointer -fsanitize=thread --param tsan-distinguish-volatile=1"
 DEFS="-DFIBER_STACK_MALLOC -DFIBER_FAST_SWITCHING -DLIBFIBER_VERIF -DNDEBUG -D_GNU_SOURCE"
 INC="-I$REPO/include -I$REPO/src -I$V/vrt -I$V/drivers"
-LIBSRC="fiber_context fiber_mutex fiber_semaphore fiber_spinlock fiber_cond fiber_barrier fiber_io fiber_rwlock hazard_pointer work_stealing_deque work_queue"
+LIBSRC="fiber_context fiber_mutex fiber_semaphore fiber_spinlock fiber_cond fiber_barrier fiber_rwlock hazard_pointer work_stealing_deque work_queue"
 pids=()
 for f in $LIBSRC; do
   gcc $INST $DEFS $INC -w -c $REPO/src/$f.c -o $OUT/$f.o & pids+=($!)
 done
-for f in wrap_fiber_manager wrap_scheduler wrap_fiber wrap_event; do
+# wrap_event_io includes wrap_event.c (sleep registration) and adds the fd wait-table registration and
+# logging of the epoll calls; wrap_io replaces src/fiber_io.c and logs the real system calls of the shims
+for f in wrap_fiber_manager wrap_scheduler wrap_fiber wrap_event_io wrap_io; do
   gcc $INST $DEFS $INC -w -c $V/vrt/$f.c -o $OUT/$f.o & pids+=($!)
 done
 # module extensions drivers/ext_<mod>.c (all of them, or only those named in $FIBER_EXTS)
@@ -22,10 +24,8 @@ for src in $V/drivers/ext_*.c; do
   b=$(basename $src .c)
   [ "$b" = "ext_all" ] && continue
   if [ -n "$FIBER_EXTS" ]; then
-    case " $FIBER_EXTS " in *" ${b#ext_} "*) ;; *) continue;; esac
-  else
-    # extensions that need their own wrapper TUs/build script are not part of the default binary
-    case " $FIBER_SKIP_EXTS io " in *" ${b#ext_} "*) continue;; esac
+    # ext_io is always part of the binary: the wrapper TUs wrap_io.c / wrap_event_io.c call into it
+    case " $FIBER_EXTS io " in *" ${b#ext_} "*) ;; *) continue;; esac
   fi
   EXTS="$EXTS $b"
 done
